@@ -34,6 +34,14 @@ def macro_call(mac, elem, n, kind, k, ret_expr="return None;"):
     """(expression text, result element type) for one invocation; the closure is the shared library:
     map value 2x+1 on inputs 10+i, from_fn value 3i+2"""
     ex = "" if kind == "none" else "if IDX == %d { %s }" % (k, exit_stmt(kind, ret_expr))
+    if elem in ("zst", "unit"):
+        # zero-sized OUTPUT elements (`zst`: a token with a destructor and a live-token counter; `unit`: `()`,
+        # usable in a const initialiser): `size_of::<[T; N]>() == 0`, so only the element COUNT protects `build()`
+        val = "elog::znew()" if elem == "zst" else "()"
+        inp = "input_copy::<%d>()" % n
+        if mac in ("map", "map_"):
+            return "konst::array::%s!(%s, |x| { %s %s })" % (mac, inp, ex.replace("IDX", "(x - 10)"), val)
+        return "konst::array::%s!(|i| { %s %s })" % (mac, ex.replace("IDX", "i"), val)
     if elem == "copy":
         inp = "input_copy::<%d>()" % n
         if mac == "map":
@@ -54,6 +62,8 @@ def macro_call(mac, elem, n, kind, k, ret_expr="return None;"):
 
 
 def out_type(mac, elem, n):
+    if elem == "zst":
+        return "[elog::Z; %d]" % n
     if elem == "log" and mac != "map":
         return "[E; %d]" % n
     return "[u64; %d]" % n
@@ -69,6 +79,11 @@ fn input_log<const N: usize>() -> [E; N] { core::array::from_fn(|i| elog::with_v
 trait Show { fn show(&self) -> String; }
 impl<const N: usize> Show for [u64; N] { fn show(&self) -> String { format!("[{}]", self.iter().map(|x| x.to_string()).collect::<Vec<_>>().join(";")) } }
 impl<const N: usize> Show for [E; N] { fn show(&self) -> String { format!("[{}]", self.iter().map(|x| x.val.to_string()).collect::<Vec<_>>().join(";")) } }
+impl<const N: usize> Show for [elog::Z; N] { fn show(&self) -> String {
+    // zero-sized tokens have no value: the array is shown by its length; the number of LIVE tokens (created and
+    // not dropped) must be exactly that length — an array of tokens that were never created is flagged
+    let s = format!("[{}]", vec!["z"; N].join(";"));
+    if elog::zlive() == N as i64 { s } else { format!("{}|LIVE={}", s, elog::zlive()) } } }
 impl Show for [usize] { fn show(&self) -> String { format!("[{}]", self.iter().map(|x| x.to_string()).collect::<Vec<_>>().join(";")) } }
 """
 
@@ -107,9 +122,11 @@ def std_value(mac, n):
     return "[" + ";".join(str(3 * i + 2) for i in range(n)) + "]"
 
 
-def oracle_for(mac, n, kind, k, ctx):
+def oracle_for(mac, n, kind, k, ctx, elem="copy"):
     hostile = kind != "none" and k < n
     if not hostile:
+        if elem in ("zst", "unit"):
+            return "[" + ";".join("z" for _ in range(n)) + "]"
         return std_value(mac, n)
     if kind == "panic":
         return "panic" if ctx == "fn" else "does-not-compile"
@@ -143,6 +160,16 @@ def generate(ctx):
                     # an exit index that is never reached: the closure is well-behaved
                     if n == 2:
                         cases.append((mac, elem, n, kind, n))
+    # zero-sized output elements: all exits for the by-value macros (they rely on `ArrayBuilder::build` to notice
+    # a skipped push); for the by-reference macros only the exits that cannot spin (no `continue` time-outs)
+    for mac in MACS:
+        for n in range(0, maxn + 1):
+            cases.append((mac, "zst", n, "none", 0))
+            for kind in (KINDS_FN if mac in ("map_", "from_fn_") else ["brk", "cont1", "panic"]):
+                for k in range(n):
+                    cases.append((mac, "zst", n, kind, k))
+                if n == 2:
+                    cases.append((mac, "zst", n, kind, n))
     src = os.path.join(d, "fncases.rs")
     open(src, "w").write(fn_program(cases))
     binp = os.path.join(d, "fncases")
@@ -165,23 +192,33 @@ def generate(ctx):
             results[i] = r
     for (mac, elem, n, kind, k), res in zip(cases, results):
         req = "arr.%s fn %s %d %s" % (mac, elem, n, "none" if kind == "none" else "%s@%d" % (kind, k))
-        rows.append((req, res, oracle_for(mac, n, kind, k, "fn"), True))
+        rows.append((req, res, oracle_for(mac, n, kind, k, "fn", elem), True))
         safe_row(rows, req, res, n, kind, k)
 
     # ---- const context ----------------------------------------------------------------------
     ccases = []
     for mac in MACS:
         for n in ([0, 1, 3] if tier != "thorough" else [0, 1, 2, 3]):
-            ccases.append((mac, n, "none", 0))
+            ccases.append((mac, "copy", n, "none", 0))
             for kind in KINDS_CONST:
                 for k in range(n):
-                    ccases.append((mac, n, kind, k))
+                    ccases.append((mac, "copy", n, kind, k))
+    # `[(); N]` outputs of the by-value macros as const initialisers (a skipped push must be a compile error)
+    for mac in ("map_", "from_fn_"):
+        for n in ([1, 3] if tier != "thorough" else [1, 2, 3]):
+            ccases.append((mac, "unit", n, "none", 0))
+            for kind in ("brk", "cont", "panic"):
+                for k in range(n):
+                    ccases.append((mac, "unit", n, kind, k))
     jobs = []
-    for i, (mac, n, kind, k) in enumerate(ccases):
-        call = macro_call(mac, "copy", n, kind, k, ret_expr="return [0; %d];" % n)
+    for i, (mac, elem, n, kind, k) in enumerate(ccases):
+        call = macro_call(mac, elem, n, kind, k, ret_expr="return [0; %d];" % n)
         lit = "[" + ", ".join("%du64" % (10 + j) for j in range(n)) + "]" if n else "[0u64; 0]"
         call = call.replace("input_copy::<%d>()" % n, lit)
-        s = "#![allow(unused, unreachable_code)]\npub const A: [u64; %d] = %s;\nfn main() { println!(\"[{}]\", A.iter().map(|x| x.to_string()).collect::<Vec<_>>().join(\";\")); }\n" % (n, call)
+        if elem == "unit":
+            s = "#![allow(unused, unreachable_code)]\npub const A: [(); %d] = %s;\nfn main() { println!(\"[{}]\", A.iter().map(|_| \"z\").collect::<Vec<_>>().join(\";\")); }\n" % (n, call)
+        else:
+            s = "#![allow(unused, unreachable_code)]\npub const A: [u64; %d] = %s;\nfn main() { println!(\"[{}]\", A.iter().map(|x| x.to_string()).collect::<Vec<_>>().join(\";\")); }\n" % (n, call)
         p = os.path.join(d, "const_%d.rs" % i)
         open(p, "w").write(s)
         jobs.append((p, os.path.join(d, "const_%d" % i)))
@@ -199,9 +236,9 @@ def generate(ctx):
 
     with concurrent.futures.ThreadPoolExecutor(max_workers=16) as ex:
         cres = list(ex.map(const_case, jobs))
-    for (mac, n, kind, k), res in zip(ccases, cres):
-        req = "arr.%s const copy %d %s" % (mac, n, "none" if kind == "none" else "%s@%d" % (kind, k))
-        rows.append((req, res, oracle_for(mac, n, kind, k, "const"), True))
+    for (mac, elem, n, kind, k), res in zip(ccases, cres):
+        req = "arr.%s const %s %d %s" % (mac, elem, n, "none" if kind == "none" else "%s@%d" % (kind, k))
+        rows.append((req, res, oracle_for(mac, n, kind, k, "const", elem), True))
         safe_row(rows, req, res, n, kind, k)
 
     # ---- collect_const! ---------------------------------------------------------------------
